@@ -30,6 +30,18 @@ def splits_pair(toks, pos):
     return False
 
 
+def compatible(O, x, y):
+    """node types whose content expressions admit a common first child type (or the same type)"""
+    from spec import regex as rx
+
+    if x == y:
+        return True
+    nx, ny = O.nodes.get(x), O.nodes.get(y)
+    if nx is None or ny is None or nx.regex is None or ny.regex is None:
+        return False
+    return bool(set(rx.first(nx.regex)) & set(rx.first(ny.regex)))
+
+
 def check_slice(rec, name, doc, toks, f, t):
     call = dict(fn="slice", schema=name, doc=D.doc_json(doc), f=f, t=t)
     try:
@@ -92,6 +104,13 @@ def check_replace(rec, name, O, doc, toks, f, t, s, same_range=False):
     if untyped(rt) != untyped(exp):
         rec.violation("replace-splice", "result is not old[:from] + slice + old[to:]", call)
         return
+    # ... but only onto a *compatible* node: where the result closes a node of another type than the
+    # splice says, the two types must be joinable by the schema's definition (same type, or content
+    # expressions that can start with a common node type); otherwise replace had to raise
+    for a_, b_ in zip(rt, exp):
+        if a_[0] == "close" and b_[0] == "close" and a_[1] != b_[1] and not compatible(O, a_[1], b_[1]):
+            rec.violation("replace-incompatible-join", f"joined a {b_[1]} onto a {a_[1]} although their content is not compatible (replace must raise)", call)
+            return
     why = O.valid(r)
     if why is not None:
         rec.violation("replace-invalid", f"returned an invalid document: {why}", call)
@@ -124,6 +143,10 @@ def run(tier, seed, findings):
                     s = check_slice(rec, name, doc, toks, f, t)
                     if s is not None and not (splits_pair(toks, f) or splits_pair(toks, t)):
                         check_replace(rec, name, O, doc, toks, f, t, s, same_range=True)
+                        if t > f:
+                            from prosemirror.model import Slice as _Slice
+
+                            check_replace(rec, name, O, doc, toks, f, t, _Slice.empty)  # plain deletion of every range
                     # foreign slices on a sample of ranges
                     if (f * 31 + t * 17 + seed) % (7 if tier == "quick" else 3) == 0:
                         for s2 in pool[:: (4 if tier == "quick" else 1)]:
